@@ -1056,6 +1056,16 @@ def c13(tier, rep):
                         sub = fp.fail_slots(ds) if is_try else ()
                         rows = [[0]] if is_try else fp.offset_rows()
                         progs.append(fp.to_prog("%s/%s/%s/%s@%d" % (mac, fl, fp.pname(ds), hk, hpos), p, rows, sub=sub))
+    # Option branches that fail in a MIDDLE step through an operator that is also an Option method (filter / zip / flatten), every later
+    # step starting with a `~<|` that would revive them: the handler is not called (and nothing of a later step runs)
+    for ds in ((3,), (3, 1), (2, 3), (3, 3)):
+        for mac in ("try_join", "try_join_spawn", "try_spawn"):
+            for hk in ("map", "and_then"):
+                for fo_ in ("filter", "zip", "flatten"):
+                    if mac != "try_join" and (hk, fo_) not in (("map", "filter"), ("and_then", "zip")):
+                        continue
+                    p = fp.build(mac, ds, flavour="Opt", failop=fo_, recover=True, handler=hk)
+                    progs.append(fp.to_prog("%s/Opt/%s/%s/%s/recover" % (mac, fp.pname(ds), hk, fo_), p, [[0]], sub=fp.fail_slots(ds)))
     progs += handler_expr_programs()
     fr = e2.run_family("c13", progs, extra_header=fp.HEADER)
     judge_family(rep, fr)
@@ -1068,7 +1078,7 @@ def c13(tier, rep):
     d = e1_mode(rep, exe, ["opts", "handlers"], "C13", "handler legality")
     rep.set("legality_inputs", d["inputs"] if d else 0)
     rep.set("profile_depth_bound", 2 if tier == "quick" else 3)
-    rep.set("rule", "E2 under options: every handler kind, written first and last, behind custom_joiner / lazy_branches(true|false) / transpose_results(true) in sync, spawn, async and task-spawning kinds (async try with transpose_results(true): joined with a plain join and transposed by the macro — map still gets the unwrapped values and is skipped on failure), every failure subset; E2: depth profiles n<=3,d<=2 x 12 macros x {map, and_then | then} x handler written first / in the middle / last x EVERY failure subset (try) : handler event count, argument order, result wrapping vs the reference (handler called exactly once iff every branch succeeded; then: always); async then/and_then handlers return futures (awaited; the gated variants run under all wake-up orders in C09's set); E1: 8 configs x 3 handler kinds x 1-3 branches x every position x optional second handler at every position: rejection iff wrong kind or second handler")
+    rep.set("rule", "E2: Option branches failing in a middle step through filter / zip / flatten while every later step starts with a reviving `~<|` (sync try kinds, every failure subset): handler not called; E2 under options: every handler kind, written first and last, behind custom_joiner / lazy_branches(true|false) / transpose_results(true) in sync, spawn, async and task-spawning kinds (async try with transpose_results(true): joined with a plain join and transposed by the macro — map still gets the unwrapped values and is skipped on failure), every failure subset; E2: depth profiles n<=3,d<=2 x 12 macros x {map, and_then | then} x handler written first / in the middle / last x EVERY failure subset (try) : handler event count, argument order, result wrapping vs the reference (handler called exactly once iff every branch succeeded; then: always); async then/and_then handlers return futures (awaited; the gated variants run under all wake-up orders in C09's set); E1: 8 configs x 3 handler kinds x 1-3 branches x every position x optional second handler at every position: rejection iff wrong kind or second handler")
     sample_family(rep, progs, fr)
 
 
